@@ -75,6 +75,24 @@ def special_scenarios():
         plan = ([{"lat": 0, "fail": False, "echo": None, "rply": None}] * 4 if k_lost_first else []) + [{"lat": 0, "fail": False, "echo": 2 * G, "rply": None}] * k_ok
         evs = [(0, ("made",))] + [(G * (1 + 600 * j), ("call", j)) for j in range(len(cmds))]
         out.append({"lifo": False, "mode": False, "cmds": cmds, "events": evs, "plan": plan, "default_plan": {"lat": 0, "fail": False, "echo": None, "rply": None}})
+    # a second caller arrives at the very instant the first caller's timeout expires (either order within the iteration); the first command's echo is late:
+    # it arrives after that, well before the FSM's own echo timer -- it must never be handed to the second caller
+    for lifo in (False, True):
+        for k in (6, 5, 7):
+            out.append({"lifo": lifo, "mode": False,
+                        "cmds": [{"kind": "rq30c9", "idx": 1, "prio": 0, "max_retries": 3, "timeout": k * G, "wfr": False},
+                                 {"kind": "rq30c9", "idx": 2, "prio": 0, "max_retries": 3, "timeout": 20_000_000, "wfr": False}],
+                        "events": [(0, ("made",)), (G, ("call", 0)), (G + 6 * G, ("call", 1))],
+                        "plan": [{"lat": 0, "fail": False, "echo": 8 * G, "rply": None}], "default_plan": {"lat": 0, "fail": False, "echo": 2 * G, "rply": None}})
+    # ... the same with a STALL (a callback that takes wall time): the second caller's first step and the first caller's timeout land in one iteration,
+    # the caller's step first -- the window in which the command in flight has a cancelled future but the FSM has not been reset yet
+    for lifo in (False, True):
+        for stall_at, stall in ((6, 2), (5, 3), (6, 1)):
+            out.append({"lifo": lifo, "mode": False,
+                        "cmds": [{"kind": "rq30c9", "idx": 1, "prio": 0, "max_retries": 3, "timeout": 6 * G, "wfr": False},
+                                 {"kind": "rq30c9", "idx": 2, "prio": 0, "max_retries": 3, "timeout": 20_000_000, "wfr": False}],
+                        "events": [(0, ("made",)), (G, ("call", 0)), (stall_at * G, ("call", 1)), (stall_at * G, ("stall", stall * G))],
+                        "plan": [{"lat": 0, "fail": False, "echo": 8 * G, "rply": None}], "default_plan": {"lat": 0, "fail": False, "echo": 2 * G, "rply": None}})
     # echo and reply of the command in flight arrive in the SAME loop iteration while another command waits in the buffer; then silence
     for wfr, n in ((True, 2), (True, 3), (False, 2)):
         out.append({"lifo": False, "mode": False,
@@ -113,6 +131,8 @@ def check(ctx: Ctx, pid: str) -> None:
         r = qos.run_impl(s)
         wedged += 1 if r[3].get("wedged") else 0
         impl.append(r)
+    if pid == "C08":
+        default_qos_budget(ctx)
     for s, (tr, st, qs, info) in zip(scns, impl):
         nontriv = any(e[0] == 1 for e in tr)
         ctx.case(("scn", repr(s["events"]), repr(s["cmds"]), repr(s["plan"]), s["lifo"], s["mode"]), nontriv,
@@ -160,6 +180,92 @@ def check(ctx: Ctx, pid: str) -> None:
         ctx.obligation("correspondence:send-machinery-traces", False, "correspondence", "model not built")
 
 
+def default_qos_budget(ctx: Ctx) -> None:
+    """C08 on commands sent WITHOUT a qos argument (the library's defaults), before and after the library has sent packets of its own (the
+    impersonation alert that precedes a command with a foreign source address): an unanswered default-QoS command is transmitted exactly
+    1 + min(default max_retries, 3) times each time."""
+    import asyncio  # noqa: PLC0415
+
+    import ramses_tx.protocol_fsm as fsm  # noqa: PLC0415
+    from ramses_tx import exceptions as exc  # noqa: PLC0415
+    from ramses_tx.command import Command  # noqa: PLC0415
+    from ramses_tx.packet import Packet  # noqa: PLC0415
+    from ramses_tx.protocol import PortProtocol  # noqa: PLC0415
+    from ramses_tx.typing import QosParams  # noqa: PLC0415
+
+    from .vloop import VLoop  # noqa: PLC0415
+
+    loop = VLoop()
+    asyncio.set_event_loop(loop)
+
+    class VDT(qos._dt.datetime):
+        _tick = 0
+
+        @classmethod
+        def now(cls, tz=None):
+            cls._tick += 1
+            return qos.EPOCH + qos._dt.timedelta(seconds=loop.time(), microseconds=cls._tick)
+
+    saved = fsm.dt
+    fsm.dt = VDT
+    writes: list = []
+    echo_for: set = set()
+    steps = []
+
+    async def main():
+        proto = PortProtocol(lambda m: None, disable_qos=False)
+
+        class Tr:
+            def get_extra_info(self, k, d=None):
+                return {"active_gwy": qos.GW, "is_evofw3": True}.get(k, d)
+
+            def is_closing(self):
+                return False
+
+            async def write_frame(self, frame, disable_tx_limits=False):
+                writes.append(frame)
+                if any(k in frame for k in echo_for):
+                    loop.call_later(0.02, lambda: proto.pkt_received(Packet.from_port(VDT.now(), "000 " + frame.replace("18:000730", qos.GW))))
+
+        proto.connection_made(Tr(), ramses=True)
+        want = 1 + min(QosParams().max_retries, 3)
+
+        async def unanswered(tag, zone):
+            cmd = Command.get_zone_temp(qos.CTL, zone)
+            n0 = len(writes)
+            try:
+                await proto.send_cmd(cmd)                      # no qos argument: the library's defaults
+                out = "returned"
+            except exc.ProtocolSendFailed:
+                out = "ProtocolSendFailed"
+            except Exception as err:  # noqa: BLE001
+                out = type(err).__name__
+            n = sum(1 for f in writes[n0:] if f == str(cmd))
+            steps.append((tag, n, want, out))
+
+        await unanswered("before", "01")
+        echo_for.update(("7FFF", " 30C9 003 0007D0"))
+        try:      # a command with a foreign source address: the library sends its impersonation alert (7FFF) first
+            await proto.send_cmd(Command._from_attrs(" I", "30C9", "0007D0", addr0="34:123456", addr2="34:123456"))
+            steps.append(("impersonated", len([f for f in writes if " 7FFF " in f]), 1, "returned"))
+        except Exception as err:  # noqa: BLE001
+            steps.append(("impersonated", -1, 1, type(err).__name__))
+        await unanswered("after-the-library's-own-alert", "02")
+        await unanswered("again", "03")
+
+    try:
+        loop.run_until_complete(main())
+    finally:
+        fsm.dt = saved
+        asyncio.set_event_loop(None)
+        loop.close()
+    ctx.case(("default-qos-budget",), True, "default-qos:before-and-after-an-impersonated-send")
+    for tag, n, want, out in steps:
+        if tag != "impersonated" and n != want:
+            ctx.violation("default-qos-budget-changes:" + tag, f"an unanswered command sent with the library's default QoS was transmitted {n} times ({tag}), not 1 + min(max_retries, 3) = {want}",
+                          {"steps": [list(x) for x in steps]}, "history")
+
+
 def oracle(ctx: Ctx, pid: str, s, tr, st, qs, info) -> None:
     G = qos.GRID
     cmds = s["cmds"]
@@ -181,7 +287,8 @@ def oracle(ctx: Ctx, pid: str, s, tr, st, qs, info) -> None:
                 ctx.violation("caller-not-answered-once", "a send_cmd call did not finish exactly once", {**case, "cmd": i, "answers": dones[i]}, "schedule")
                 continue
             d = dones[i][0]
-            deadline = t0 + min(c["timeout"], 20_000_000)
+            stalled = sum(ev[1] for _, ev in s["events"] if ev[0] == "stall")      # a stalled loop cannot answer: the time it was held up does not count
+            deadline = t0 + min(c["timeout"], 20_000_000) + stalled
             if d[1] > deadline:
                 ctx.violation("answered-after-deadline", "send_cmd finished later than min(timeout, 20 s) after the call",
                               {**case, "cmd": i, "answered_at": d[1], "deadline": deadline}, "schedule")
